@@ -6,7 +6,7 @@ from .. import common, hb, store, tlc
 
 MC_TH = """CONSTANTS
   Tk = {%(tk)s}
-  Du = {%(du)s}
+  Du %(du)s
   Da = {"a", "b"}
   Ps = {0, 1, 2, 4}
   MaxLen = %(n)d
@@ -54,7 +54,7 @@ def run_c08(prop, tier, seed, replay):
     rnd = random.Random(seed)
     q = tier == "quick"
     if replay is None:
-        res = tlc.model_check("MC_AwHeartbeat", MC_TH % dict(tk="0, 2, 4", du="0, 2, 4" if q else "-2, 0, 2, 4", n=3), tag="mc_hb_th", heap="8g")
+        res = tlc.model_check("MC_AwHeartbeat", MC_TH % dict(tk="0, 2, 4", du="= {0, 2, 4}" if q else "<- DuT", n=3), tag="mc_hb_th", heap="8g")
         rep.add_model(res, "theorems of the merge rule on every list of <= 3 events (ticks {0,1,2}, durations, data {a,b}) x pulsetime {0,1/2,1,2}: "
                            "normal form, idempotence, coverage, never-shortens, length non-increasing")
         cases = [("merge",) + c for c in hb.merge_cases(q)]
@@ -118,9 +118,8 @@ def run_c07(prop, tier, seed, replay):
         for i, s in enumerate(allst):
             for p2 in ((rnd.choice([0, 1, 2, 4]),) if q else (0, 1, 2, 4)):
                 jobs.append(("s%d" % i, s, p2))
-        if q:
-            rnd.shuffle(jobs)
-            jobs = jobs[:1500]
+        rnd.shuffle(jobs)
+        jobs = jobs[:(1500 if q else 40000)]
         # longer random streams
         for i in range(300 if q else 6000):
             s, t, end = [], -1, 0
@@ -159,7 +158,7 @@ def run_c07(prop, tier, seed, replay):
     rep.cov.update(traces_validated_against_impl=nreal, evaluations=sum(len(t) for t in traces[:nreal]),
                    distinct_nontrivial=len({(r["backend"], repr(r["stream"]), r["P"]) for r in runs if len(r["stream"]) >= 2}),
                    rule="all heartbeat streams of <= %d events on ticks 0..5, durations 0..3, data {a,b} (strictly increasing timestamps, non-decreasing ends) with pulsetimes {0,1/2,1,2} "
-                        "(quick: a random 1500 of them) plus longer random streams, each run on memory/sqlite/peewee in a database that also holds a populated spectator bucket sharing instants; "
+                        "(a random 1500 of them in the quick tier, 40000 in the thorough tier) plus longer random streams, each run on memory/sqlite/peewee in a database that also holds a populated spectator bucket sharing instants; "
                         "non-trivial = stream of >= 2 heartbeats" % (3 if q else 4))
     rep.notes["streams_per_backend"] = per
     rep.sample({"backend": runs[0]["backend"], "stream": runs[0]["stream"], "P_halfticks": runs[0]["P"], "trace": runs[0]["trace"][:3]})
